@@ -1,4 +1,4 @@
-package hpure
+package syncer
 
 // C12 — stream decoding is lossless and its offsets equal the bytes consumed.
 //
@@ -21,6 +21,7 @@ import (
 	"sort"
 	"strconv"
 	"strings"
+	"testing"
 
 	"github.com/mgtv-tech/redis-GunYu/pkg/redis/client"
 	"github.com/mgtv-tech/redis-GunYu/pkg/redis/client/proto"
@@ -82,13 +83,16 @@ var c12Names = []string{"PING", "Incr", "SET", "hset"}
 // scenario
 
 type c12Scn struct {
-	Path string  `json:"path"`           // decode | encode-resp | encode-writer
+	Path string  `json:"path"`           // decode | encode-resp | encode-writer | parse | encode-typed
 	Fam  string  `json:"fam"`            // enumeration family
 	Cmds [][]int `json:"cmds"`           // per command: alphabet indexes of its arguments
 	HB   []int   `json:"hb"`             // heartbeats ("\n") before command i; last entry = after the last command
 	Buf  int     `json:"buf"`            // bufio.Reader size (decode) / bufio.Writer size (encode)
 	Frag string  `json:"frag,omitempty"` // "" (all), whole, 1byte, cuts
 	Cuts []int   `json:"cuts,omitempty"`
+	// path "parse" only (c12e_test.go)
+	Start   int64 `json:"start_offset,omitempty"`
+	StartDb int   `json:"start_db,omitempty"`
 }
 
 type c12Cmd struct {
@@ -673,7 +677,9 @@ func c12Commands(idx []int, maxArgs int) [][]int {
 	return out
 }
 
-func init() { pureChecks["C12"] = runC12 }
+func init() {
+	verifChecks["C12"] = func(t *testing.T, rep *mc.Reporter) { runC12(rep) }
+}
 
 func runC12(rep *mc.Reporter) {
 	shard, nshards := mc.ShardOf()
@@ -698,7 +704,12 @@ func runC12(rep *mc.Reporter) {
 				}
 			}
 		}
-		if s.Path == "decode" {
+		if s.Path == "parse" {
+			res, _ := c12RunParse(s)
+			rep.Exec(s, nil, res)
+		} else if s.Path == "encode-typed" {
+			rep.Exec(s, nil, c12RunTyped(s))
+		} else if s.Path == "decode" {
 			res, v, _ := c12RunDecode(s, false)
 			if v != nil {
 				s = *v
@@ -744,6 +755,24 @@ func runC12(rep *mc.Reporter) {
 			}
 		}
 	}
+	var parserRuns int64
+	parse := func(fam string, cmds [][]int, hb []int) {
+		if !mine() {
+			return
+		}
+		rep.Scenario()
+		s := c12Scn{Path: "parse", Fam: fam, Cmds: cmds, HB: hb}
+		res, runs := c12RunParse(s)
+		parserRuns += int64(runs)
+		rep.Exec(s, nil, res)
+	}
+	for _, ws := range []int{16, 64, 4096} {
+		if mine() {
+			rep.Scenario()
+			s := c12Scn{Path: "encode-typed", Fam: "typed", Buf: ws}
+			rep.Exec(s, nil, c12RunTyped(s))
+		}
+	}
 	encode := func(fam string, cmds [][]int) {
 		if !mine() {
 			return
@@ -762,6 +791,7 @@ func runC12(rep *mc.Reporter) {
 	for _, c := range f1 {
 		for _, hb := range [][]int{{0, 0}, {1, 0}, {2, 0}, {0, 1}} {
 			decode("single", [][]int{c}, hb, thorough)
+			parse("single", [][]int{c}, hb)
 		}
 		encode("single", [][]int{c})
 	}
@@ -818,6 +848,9 @@ func runC12(rep *mc.Reporter) {
 				}
 				for _, hb := range f3hb {
 					decode("triple", [][]int{a, b, c}, hb, thorough && shortOnes)
+					if shortOnes {
+						parse("triple", [][]int{a, b, c}, hb)
+					}
 				}
 				bufsOverride = nil
 			}
@@ -846,6 +879,7 @@ func runC12(rep *mc.Reporter) {
 		}
 	}
 	rep.Count("decoder_runs", decoderRuns)
+	rep.Count("parser_runs", parserRuns)
 	if budget.Expired() {
 		rep.Capped("deadline reached during stream enumeration")
 	}
